@@ -44,4 +44,10 @@ def L0(fn, props, harness=None, loop=False, replace=(), defines=(), expect=(), l
 def jobs(tier):
     J = []
     J.append(L0('parse_uint_decimal', ['C03', 'C04'], loop=True, replay={'kind': 'program', 'program': 'f2.c'}))
+    J.append(L0('parse_int_decimal', ['C03', 'C04'], loop=True, replay={'kind': 'program', 'program': 'f2.c'}))
+    J.append(L0('parse_num_hexadecimal', ['C03', 'C04'], loop=True, replay={'kind': 'program', 'program': 'f2.c'}))
+    J.append(L0('validate_uint_range', ['C03', 'C04', 'C08']))
+    J.append(L0('validate_int_range', ['C03', 'C04', 'C08']))
+    J.append(L0('parse_buffer_hexadecimal', ['C03', 'C05', 'C08'], loop=True))
+    J.append(L0('parse_buffer_string', ['C03', 'C05', 'C08'], loop=True))
     return [j for j in J if tier in j['tiers']]
